@@ -150,6 +150,47 @@ func (iv *RaftInv) Check(r *Raft) string {
 			}
 		}
 	}
+	// Electability (LeaderCompleteness one election ahead). Raft keeps LeaderCompleteness because a server that lacks a
+	// committed entry can never gather a majority of votes: a voter grants its vote only to a candidate whose log is at
+	// least as up-to-date as its own (last term, then length), and every majority contains a server that holds the
+	// entry. If, in the state reached, some live server c lacks an entry committed at index k and the live servers whose
+	// logs are not more up-to-date than c's form a majority, then the schedule "c times out in a fresh term, exactly
+	// those servers receive its request first and answer" — every step of which the environment may take — makes c the
+	// leader of a later term without the entry: LeaderCompleteness is violated on a continuation of this very
+	// execution. Reported at once, with the witnesses, instead of waiting for the draws to produce that continuation.
+	lastTerm := func(v srvView) int {
+		if v.n == 0 {
+			return 0
+		}
+		return termOf(entryAt(v.log, v.n))
+	}
+	for c := 1; c <= n; c++ {
+		if r.Crashed[c] {
+			continue
+		}
+		missing := 0
+		for k, e := range iv.Committed {
+			if (k > vs[c].n || !entryAt(vs[c].log, k).Equal(e)) && (missing == 0 || k < missing) {
+				missing = k
+			}
+		}
+		if missing == 0 {
+			continue
+		}
+		var voters []int
+		for q := 1; q <= n; q++ {
+			if r.Crashed[q] {
+				continue
+			}
+			if q == c || lastTerm(vs[c]) > lastTerm(vs[q]) || (lastTerm(vs[c]) == lastTerm(vs[q]) && vs[c].n >= vs[q].n) {
+				voters = append(voters, q)
+			}
+		}
+		if len(voters)*2 > n {
+			return fmt.Sprintf("LeaderCompleteness (one election ahead): index %d was committed as %v, server %d does not hold it (its log: %v), yet the live servers %v — a majority of %d — would all grant it their vote in a fresh term (their logs are not more up-to-date: last terms %v, lengths %v): it can become leader without a committed entry",
+				missing, iv.Committed[missing], c, vs[c].log, voters, n, lastTermsOf(vs, voters, lastTerm), lensOf(vs, voters))
+		}
+	}
 	// history form: every leader holds every entry ever committed in a term not after its own
 	for s := 1; s <= n; s++ {
 		if vs[s].state != "leader" {
@@ -166,3 +207,19 @@ func (iv *RaftInv) Check(r *Raft) string {
 
 // Terms with a leader so far.
 func (iv *RaftInv) TermsWithLeader() int { return len(iv.LeaderOf) }
+
+func lastTermsOf(vs []srvView, who []int, f func(srvView) int) []int {
+	out := make([]int, len(who))
+	for i, q := range who {
+		out[i] = f(vs[q])
+	}
+	return out
+}
+
+func lensOf(vs []srvView, who []int) []int {
+	out := make([]int, len(who))
+	for i, q := range who {
+		out[i] = vs[q].n
+	}
+	return out
+}
